@@ -43,6 +43,8 @@ class InterruptableThread(threading.Thread):
         threading.Thread.__init__(self)
         self.func, self.args, self.kwargs = func, args, kwargs
         self.daemon = True
+        #: The thread that started this one (a timeout nested in a timed execution has an InterruptableThread here)
+        self.parent_thread = threading.current_thread()
         #: Set when the caller gave up on this thread because it ran out of time
         self.abandoned = False
         self.result = None
@@ -89,6 +91,15 @@ class InterruptableThread(threading.Thread):
 
         """
         self.exc_info = sys.exc_info()
+        # Threads that were started from inside this one (a threaded import during a threaded
+        # run) go down with it, right now and not only once this thread gets around to it
+        for thread in threading.enumerate():
+            if isinstance(thread, InterruptableThread) and thread.parent_thread is self and not thread.abandoned:
+                thread.abandoned = True
+                try:
+                    thread.terminate()
+                except (AssertionError, ValueError, SystemError):
+                    pass
         self.raise_exception(SystemExit)
 
 
@@ -103,14 +114,21 @@ def timeout(duration, func, *args, **kwargs):
         return func(*args, **kwargs)
 
     target_thread = InterruptableThread(func, args, kwargs)
-    target_thread.start()
+    terminated = False
     try:
+        target_thread.start()
         target_thread.join(duration)
+        timed_out = target_thread.is_alive()
+        if timed_out:
+            target_thread.abandoned = True
+            target_thread.terminate()
+            terminated = True
     except BaseException:
         # The waiting thread was itself interrupted (a timeout nested inside a timed-out
-        # execution, e.g. a threaded import): do not leave the inner thread running.
-        # is_alive() cannot be trusted here, an interrupted join() may mark the thread as stopped.
-        if not target_thread.abandoned:
+        # execution, e.g. a threaded import) while it started the target, waited for it or was
+        # about to stop it: do not leave the inner thread running. is_alive() cannot be trusted here,
+        # an interrupted join() may mark the thread as stopped.
+        if not terminated and target_thread.ident is not None:
             target_thread.abandoned = True
             try:
                 InterruptableThread._async_raise(target_thread.ident, SystemExit)
@@ -118,9 +136,7 @@ def timeout(duration, func, *args, **kwargs):
                 pass
         raise
 
-    if target_thread.is_alive():
-        target_thread.abandoned = True
-        target_thread.terminate()
+    if timed_out:
         _verif_sync('after_terminate')
         timeout_exception = TimeoutError('Your code took too long to run '
                                          '(it was given {} seconds); '
